@@ -215,11 +215,13 @@ def lean_obligations(data: dict) -> str:
     parse_by_notn = {t['notation']: t['name'] for t in data['parse'] if t['dialect'] == 'default'}
     for t in data['strings']:
         p = parse_by_notn.get(t['notation'])
-        if p and t['dialect'] == 'ascii':
-            out.append(f'theorem {t["name"]}_compat : Ptx.Write.Compat {p} {t["name"]} = true := by decide +kernel')
+        if p and t["dialect"] == "ascii":
+            cname = "Compat" if t["notation"] == "polish" else "CompatStd"
+            out.append(f'theorem {t["name"]}_compat : Ptx.Write.{cname} {p} {t["name"]} = true := by decide +kernel')
     a = data['argstr']
     out.append(f'theorem argstr_compat : Ptx.Write.Compat argstrParser argstrWriter = true := by decide +kernel')
-    out.append(f'theorem argstr_nosep : Ptx.Write.NoSep 58 argstrWriter = true := by decide +kernel')
+    out.append(f'theorem argstr_sep_unknown : argstrParser.lookup 58 = none := by decide +kernel')
+    out.append(f'theorem argstr_writer_complete : argstrWriter.Complete maxi = true := by decide +kernel')
     out.append(f'theorem argstr_polish : argstrParser.notn = "polish" ∧ argstrWriter.notn = "polish" := by decide +kernel')
     for t in data['parse']:
         if t['notation'] == 'standard':
